@@ -80,7 +80,7 @@ EXTRA = {
  "C11": " Also: every registered web route is answered by its own handler: no layer of the handler chain (library wrappers and module middlewares, read from their SSA) runs the wrapped handler in a goroutine of its own or writes before it; no frontend abandons a store request. Round 5: an authenticate answer is Dir.Authenticate's answer of the dispatcher turn that serves the request (C11.6, rule instance shared with C04.1): no verdict, admin flag or timestamp from an earlier turn.",
  "C13": " Also: C13.4 (Go/C byte agreement) is evaluated by this check through pamcheck; the encoder in its per-part-Write or its one-buffer-one-Write form; request field order on both sides; every decoding entry point (Decode, Unmarshal) either delegates to Decode over the whole input or is itself subject to the decode rules; Scan() only while a part is missing.",
  "C14": " Also: nothing writes the HMAC key buffer that scryptauth.New retains (retention read from the dependency's SSA; whole-buffer copies followed); scrypt Generate as Gen or as fresh-salt + Hash; the KDF's password operand is unwritten when the KDF runs.",
- "C01": " Also: the byte copy of the password handed to a KDF is unwritten when the KDF runs.",
+ "C01": " Also: the byte copy of the password handed to a KDF is unwritten when the KDF runs. Round 5: a refusal without error is the hasher's verdict too — on every path of UserHash.Authenticate the verdict is Hasher.Check's first result or an error is reported (C01.8).",
  "C15": " Also: a succeeding exit is reached only after the rename and nothing unlinks the final name after it; every operation built on the record mutators (UserHash.Add/Update, the Dir-level operations, the agent's handlers) calls at most one of them on a path and then reports success or exactly that call's error — no compensating second write, no other error once the store may have changed.",
  "C03": " Also: the only directory the module creates is <base>/.tmp, and a recursive MkdirAll of it runs only where the base directory is already known to exist on that path (otherwise it would create <base> and its missing ancestors).",
  "C09": " Also: a directory created on the path of a durable operation has its entry flushed (plain Mkdir + fsync of the holding directory on every success exit); a recursive MkdirAll is not allowed there except for the scratch directory <base>/.tmp below a base directory known to exist.",
